@@ -41,10 +41,12 @@ AllowedDev(x) ==
 
 VisScenarios ==
   {[kind |-> k, mod |-> m, static |-> st, op |-> o, path |-> p, site |-> s, obj |-> c] :
-     k \in {"prop", "method"}, m \in Mods, st \in BOOLEAN, o \in {"read", "write", "call"},
+     k \in {"prop", "method"}, m \in Mods, st \in BOOLEAN, o \in {"read", "write", "call", "unset"},
      p \in InstPaths \cup StatPaths, s \in Sites, c \in ObjClasses}
 VisValid(x) ==
   /\ (x.kind = "method") = (x.op = "call")
+  \* unset($o->p) is a write: it needs the same right as an assignment (instance properties through -> and $this->)
+  /\ (x.op = "unset" => x.kind = "prop" /\ ~x.static /\ x.path \in {"arrow", "this"})
   /\ (x.static => x.path \in StatPaths) /\ (~x.static => x.path \in InstPaths)
   /\ (x.path = "index" => x.kind = "prop")
   \* $this / self:: / static:: / parent:: exist inside classes only; parent:: needs a parent that has the member
